@@ -208,23 +208,12 @@ def seeded_canaries(pid, units):
         if ap.returncode != 0 or not changed:
             out.append({"name": name, "ok": None, "why": "patch no longer applies to the current source; skipped"})
             shutil.rmtree(ov, ignore_errors=True); continue
-        cands = [u for u in units if any(f in open(os.path.join(VERIF, "units", u + ".rs")).read() for f in files)] or list(units)
-        res = {"name": name, "ok": False, "units": cands, "status": {}}
-        for u in cands:
-            code = ("import sys,json; sys.path.insert(0,%r); import os; os.environ['VERIF_REPO']=%r\n"
-                    "from vf import unit as U, run as R\n"
-                    "U.REPO=%r\n"
-                    "r=R.run_unit(%r, True, None, %r, None, 8, None, %r)\n"
-                    "print(json.dumps({'status':r.status,'fails':[e['obligation'] for e in r.failures][:3]}))\n"
-                    % (VERIF, ov, ov, u, "-seed-" + name, pid))
-            pr = subprocess.run(["python3", "-c", code], capture_output=True, text=True)
-            try: j = json.loads(pr.stdout.strip().split("\n")[-1])
-            except Exception: j = {"status": "runner-error", "fails": [pr.stderr[-200:]]}
-            res["status"][u] = j["status"]
-            if j["status"] == "fail":
-                res["ok"] = True; res["rejected_by"] = j["fails"]; break
+        # decided exactly as a user would see it: the quick check of this property against the overlay
+        pr = subprocess.run([os.path.join(VERIF, "check"), pid, "--tier", "quick"], capture_output=True, text=True,
+                            env=dict(os.environ, VERIF_REPO=ov, VERIF_TIER="quick"))
+        lines = [l for l in pr.stdout.split("\n") if l.startswith(("VIOLATION", "  failed obligation", "UNDECIDED"))]
+        res = {"name": name, "ok": pr.returncode == 1, "exit": pr.returncode, "report": [l[:200] for l in lines[:4]]}
         shutil.rmtree(ov, ignore_errors=True)
-        for bd in glob.glob(os.path.join(R.BUILD, "*-seed-" + name + "*")): shutil.rmtree(bd, ignore_errors=True)
         out.append(res)
     return out
 
@@ -257,7 +246,7 @@ def thorough(pid, units, results, seed):
         if m["ok"] is None: continue
         out["obligations"] += 1
         if m["ok"]: out["discharged"] += 1
-        else: out["tool"].append(("seeded", "seeded change %s (recorded as detected) was NOT rejected: %s" % (m["name"], m.get("status"))))
+        else: out["tool"].append(("seeded", "seeded change %s (recorded as detected) was NOT rejected: exit %s %s" % (m["name"], m.get("exit"), m.get("report"))))
     sanity = spec_sanity(pid, seed)
     if sanity is not None:
         rep["spec_sanity"] = sanity
